@@ -41,7 +41,7 @@ def gen_case(rng, tier):
     keycols = [[None if rng.random() < null_rate else rng.randrange(nlab) for _ in range(n)] for _ in range(nkeys)]
     kinds = []
     for col in keycols:
-        ks = [k for k in ["int", "float", "str", "cat", "dt", "bool"] if api.kind_ok(col, k)]
+        ks = [k for k in ["int", "float", "str", "cat", "dt", "dttz", "bool"] if api.kind_ok(col, k)]
         kinds.append(rng.choice(ks))
     dt = rng.choice(["f8", "f8", "f8", "i8", "b", "M8", "m8"])
     vals = [rng.choice(VALS[dt]) for _ in range(n)]
